@@ -13,8 +13,12 @@ def main():
 
     ctx = Ctx(prop, tier, int(seed), int(shard), int(nshards))
     mod = importlib.import_module("vf.props." + prop.lower())
+    from .ctx import ShardAbort
+
     try:
         mod.run(ctx)
+    except ShardAbort:
+        ctx.note("shard aborted after repeated case timeouts")
     except BaseException:
         traceback.print_exc()
         ctx.dump(out + ".partial")
